@@ -36,6 +36,7 @@ type traceVal struct {
 	Kind string // "int" "bool" "byte" "string" "choose"
 	T    *Term  // int/bool/byte/choose
 	S    Str    // string
+	Hook bool   // drawn inside the unlock hook (an interference point that only the engine's mutex model has)
 }
 
 type undoRec struct {
